@@ -37,7 +37,10 @@ def handled_state : List (String × StateArg) := [
 def handled_args_fields : List String := [
   "fai_file_name", "gunzipped_reference", "junc_bed_file", "output_exists", "reference",
   "require_monoexonic_polya", "require_monointronic_polya", "requires_polya_for_construction",
-  "use_technical_replicas"]
+  "use_technical_replicas",
+  -- assigned by `process_sample` of a run restarted with --read_assignments only (repair of audit 2-C GAP 1-4): the
+  -- command-line value kept in `requested_read_group`, else the grouping mode stored in the experiment's `_info` file
+  "read_group"]
 
 /-- why the iteration order of a set cannot reach an output file -/
 inductive IterArg where
